@@ -2,6 +2,7 @@ import Claripy.AST.Subst
 import ClaripyProofs.Lemmas.AST.RulesSound
 import ClaripyProofs.Lemmas.AST.IteRelocSound
 import ClaripyProofs.Lemmas.AST.CanonInj
+import ClaripyProofs.Lemmas.AST.LeafWalk
 /-!
 # C08 — substitution, canonicalisation and ITE utilities preserve meaning
 
@@ -101,12 +102,24 @@ theorem C08_canonicalize (env : Env) (e : Expr) :
   ⟨_, rfl, rename_sound env _ e⟩
 
 /-- **C08 (canonicalize is a renaming that merges nothing)**: two variables among the leaves `canonicalize` walks
-(`leaf_asts()`) that have different names get different canonical names.  (That the walk reaches every variable of the
-expression is the modelled `leafWalk` with its fuel; the correspondence compares the walk order with the real one.) -/
+(`leaf_asts()`) that have different names get different canonical names (`C08_canonicalize_injective_full` adds that the
+walk reaches every variable). -/
 theorem C08_canonicalize_injective (e : Expr) (l1 l2 : Expr) (h1 : l1 ∈ leafAsts e) (h2 : l2 ∈ leafAsts e)
     (n1 n2 : String) (hn1 : leafName l1 = some n1) (hn2 : leafName l2 = some n2) (hne : n1 ≠ n2) :
     canonicalize e = rename (canonRho e) e ∧ canonRho e n1 ≠ canonRho e n2 :=
   ⟨rfl, canonRho_injective e l1 l2 h1 h2 n1 n2 hn1 hn2 hne⟩
+
+theorem leafName_isLeaf (l : Expr) (n : String) (h : leafName l = some n) : l.isLeaf = true := by
+  cases l <;> simp [leafName, Expr.isLeaf] at h ⊢
+
+/-- **C08 (canonicalize, full statement)**: any two variables that occur anywhere in the expression and have different
+names get different canonical names — the walk reaches every leaf (`leafAsts_complete`: the fuel of the modelled stack walk
+is never exhausted, whatever sharing the expression has) and the numbering never repeats. -/
+theorem C08_canonicalize_injective_full (e : Expr) (l1 l2 : Expr) (h1 : l1 ∈ e.subs) (h2 : l2 ∈ e.subs)
+    (n1 n2 : String) (hn1 : leafName l1 = some n1) (hn2 : leafName l2 = some n2) (hne : n1 ≠ n2) :
+    canonRho e n1 ≠ canonRho e n2 :=
+  canonRho_injective e l1 l2 (leafAsts_complete e l1 h1 (leafName_isLeaf l1 n1 hn1))
+    (leafAsts_complete e l2 h2 (leafName_isLeaf l2 n2 hn2)) n1 n2 hn1 hn2 hne
 
 /-- the right-to-left walk: the second operand is leaf 0, the first is leaf 1; a variable that already has a canonical
 name is renamed like any other (here to itself) -/
